@@ -10,7 +10,7 @@ TRUSTED = [
 ]
 
 Q_STORY = dict(MaxStories=4, MaxSrc=3, MaxCarried=3)
-T_STORY = dict(MaxStories=5, MaxSrc=4, MaxCarried=3, Layouts=["plain", "between", "trailing", "both", "nt1", "nt2", "blank", "attr", "leadlast"])
+T_STORY = dict(MaxStories=5, MaxSrc=4, MaxCarried=3, Layouts=["plain", "between", "trailing", "both", "nt1", "nt2", "blank", "attr", "leadlast", "badtime"])
 Q_ITEM = dict(MaxItems=4, MaxSrc=3, MaxCarried=2)
 T_ITEM = dict(MaxItems=5, MaxSrc=4, MaxCarried=3)
 
